@@ -37,6 +37,11 @@ def bounds(tier):
         " (quick: proxy route for a third of the grid)" if tier == "quick" else "")
 
 
+def trace_variant(desc, tier):
+    """Every task is run a second time with trace logging enabled (enableTrace(True) is a process-wide configuration)."""
+    return True
+
+
 def tasks(tier, seed):
     ts = []
     for ti, t in enumerate(TRUST):
